@@ -18,7 +18,8 @@ PROPS = {}
 # which Verus units a fallback part can stand in for (a fallback part is skipped when none of them is undecided)
 FALLBACK_FOR = {('kani', 'api'): {'xoshiro', 'xorshift'}, ('diff', 'jitter'): {'jitter'}, ('kani', 'hc128_incrate'): {'hc128'},
                 ('kani', 'isaac_incrate'): {'isaac'}, ('kani', 'isaac64_incrate'): {'isaac64'}, ('diff', 'isaac'): {'isaac', 'isaac64'},
-                ('diff', 'stream'): {'xoshiro', 'xorshift', 'hc128', 'isaac', 'isaac64'}}
+                ('diff', 'stream'): {'xoshiro', 'xorshift', 'hc128', 'isaac', 'isaac64'},
+                ('diff', 'clone'): {'xoshiro', 'xorshift', 'hc128', 'isaac', 'isaac64'}}
 
 
 def run_part(part, seed=0, tier='quick', threads=16, prop=None, stop_on_failure=False, only=None):
@@ -33,10 +34,8 @@ def run_part(part, seed=0, tier='quick', threads=16, prop=None, stop_on_failure=
         return cex.isaac_serde_sweep_part()
     if kind == 'diff':
         from . import cex
-        if part[1] == 'isaac':
-            return cex.isaac_diff_part()
-        if part[1] == 'stream':
-            return cex.stream_diff_part()
+        if part[1] in ('isaac', 'stream', 'clone'):
+            return cex.native_part(part[1], prop)
         return cex.jitter_diff_part(prop, seed=seed)
     if kind == 'static':
         from . import static
@@ -72,7 +71,7 @@ reg('C12', [('verus', 'jitter')], thorough=[('verus', 'jitter'), ('kani', 'jitte
     assumptions=['number of timer readings: the postconditions quantify exactly the readings that can influence the state; the count itself is decided by Kani harnesses on the real code (thorough tier)'])
 reg('C13', [('verus', 'jitter')], thorough=[('verus', 'jitter'), ('diff', 'jitter')], fallback=[('diff', 'jitter')], level='proof', trusted_base=TB_COMMON + TB_JIT,
     explanation='test_timer carries `exists log. tt_post(log, r)`: Ok(r) only if no failure condition holds on the probe log, 1<=r<=128 and r*bitlen(mean)>=128; Err(e) only if cond(e) holds')
-reg('C14', [('verus', 'xoshiro'), ('verus', 'xorshift'), ('verus', 'jitter'), ('verus', 'hc128'), ('verus', 'isaac'), ('verus', 'isaac64')], fallback=[('diff', 'jitter'), ('kani', 'api')], level='proof', trusted_base=TB_COMMON + TB_RC + TB_JIT,
+reg('C14', [('verus', 'xoshiro'), ('verus', 'xorshift'), ('verus', 'jitter'), ('verus', 'hc128'), ('verus', 'isaac'), ('verus', 'isaac64')], fallback=[('diff', 'jitter'), ('diff', 'stream'), ('diff', 'clone'), ('kani', 'api')], level='proof', trusted_base=TB_COMMON + TB_RC + TB_JIT,
     explanation='Verus built-in obligations (overflow, index, shift, division, callee preconditions incl. panics) in every function under contract; public functions require only the type invariant',
     assumptions=['Debug/serde formatting are not claimed panic-free'])
 reg('C16', [('verus', 'jitter')], thorough=[('verus', 'jitter'), ('diff', 'jitter')], fallback=[('diff', 'jitter')], level='proof', trusted_base=TB_COMMON + TB_JIT,
@@ -81,11 +80,11 @@ reg('C15', [('verus', 'jitter')], level='proof', trusted_base=TB_COMMON + TB_JIT
     explanation='lemmas over the spec functions the code is proved equal to: lfsr64 bijective in the pool (explicit inverse), injective in the time value (bit-peeling induction), rotl 7 a permutation, stir injective (affine-linearity + explicit inverse on a basis); code-level obligations jitter.lfsr.*, jitter.stir_pool.*, jitter.measure_jitter.spec tie them to the real functions',
     assumptions=['one-to-one on the finite set of 2^64 pool values implies onto (pigeonhole) for the stir step; for the LFSR fold the inverse is explicit'])
 
-reg('C02', [('verus', 'hc128')], thorough=[('verus', 'hc128'), ('kani', 'hc128_incrate'), ('kani', 'blockrng')], fallback=[('kani', 'hc128_incrate')], level='proof', trusted_base=TB_COMMON + ['T5 assumed: le::read_u32_into (LE words); BlockRng word delivery is dependency code (Kani, thorough)'],
+reg('C02', [('static', 'forwarding'), ('verus', 'hc128')], thorough=[('static', 'forwarding'), ('verus', 'hc128'), ('kani', 'hc128_incrate'), ('kani', 'blockrng')], fallback=[('kani', 'hc128_incrate')], level='proof', trusted_base=TB_COMMON + ['T5 assumed: le::read_u32_into (LE words); BlockRng word delivery is dependency code (Kani, thorough)'],
     explanation='step_p/step_q against Wu\'s update/output functions, generate == 16 keystream steps at the current counter (all 32 unrolled calls, both phases, counter wrap), sixteen_steps/init == key/IV expansion W followed by 1024 initialisation steps, from_seed == init of the LE words; bridge lemma code association order == Wu\'s g1/g2/h1/h2',
     assumptions=['Hc128Rng forwards to rand_core::block::BlockRng: words of each 16-word block are handed out in order (Kani harness on the real rand_core, thorough tier)'])
 
-reg('C03', [('verus', 'isaac'), ('verus', 'isaac64')], thorough=[('verus', 'isaac'), ('verus', 'isaac64'), ('kani', 'isaac_incrate'), ('kani', 'isaac64_incrate'), ('kani', 'blockrng'), ('diff', 'isaac')],
+reg('C03', [('static', 'forwarding'), ('verus', 'isaac'), ('verus', 'isaac64')], thorough=[('static', 'forwarding'), ('verus', 'isaac'), ('verus', 'isaac64'), ('kani', 'isaac_incrate'), ('kani', 'isaac64_incrate'), ('kani', 'blockrng'), ('diff', 'isaac')],
     fallback=[('diff', 'isaac'), ('kani', 'isaac_incrate'), ('kani', 'isaac64_incrate')], level='proof',
     trusted_base=TB_COMMON + ['T4 Wrapping shim: local stand-in for core::num::Wrapping with verified operator impls (same operator semantics assumed; Kani cross-check)'],
     explanation='ind/rngstep/generate against Jenkins\' isaac()/isaac64() (all eight unrolled rngstep call sites, both halves, results in reference hand-out order), mix/init against randinit (golden-ratio premix re-derived by compute), seed_from_u64 key layout and single pass',
@@ -95,8 +94,8 @@ reg('C03', [('verus', 'isaac'), ('verus', 'isaac64')], thorough=[('verus', 'isaa
 TB_KANI = ['T9 Kani 0.68 / CBMC 6.11: every harness runs with unwinding assertions; kani::assume only bounds an index or excludes a documented precondition']
 ALL_UNITS = [('verus', u) for u in ('xoshiro', 'xorshift', 'jitter', 'hc128', 'isaac', 'isaac64')]
 
-reg('C05', [('verus', 'xoshiro'), ('verus', 'xorshift'), ('verus', 'jitter'), ('verus', 'isaac'), ('verus', 'isaac64'), ('kani', 'blockrng')],
-    thorough=[('verus', 'xoshiro'), ('verus', 'xorshift'), ('verus', 'jitter'), ('verus', 'isaac'), ('verus', 'isaac64'), ('kani', 'blockrng'), ('kani', 'api'), ('diff', 'stream')], fallback=[('diff', 'stream'), ('kani', 'api')],
+reg('C05', [('static', 'forwarding'), ('verus', 'xoshiro'), ('verus', 'xorshift'), ('verus', 'jitter'), ('verus', 'isaac'), ('verus', 'isaac64'), ('kani', 'blockrng')],
+    thorough=[('static', 'forwarding'), ('verus', 'xoshiro'), ('verus', 'xorshift'), ('verus', 'jitter'), ('verus', 'isaac'), ('verus', 'isaac64'), ('kani', 'blockrng'), ('kani', 'api'), ('diff', 'stream')], fallback=[('diff', 'stream'), ('kani', 'api')],
     level='proof', trusted_base=TB_COMMON + TB_RC + TB_JIT + TB_KANI,
     explanation='trait-level stream-projection contracts (s32/s64/sfill) on every generator; rand_core next_u64_via_u32 / fill_bytes_via_next verified once, generically, for all n (deterministic and relational flavour); BlockRng/BlockRng64 next_u32/next_u64 complete on the real rand_core (dummy core with arbitrary blocks); BlockRng fill_bytes bounded (thorough tier)',
     assumptions=['BlockRng/BlockRng64::fill_bytes(n) is a bounded stand-in (2-word blocks, n <= 2 blocks + tail), never counted as proved; parametricity in the block length is argued',
@@ -106,11 +105,11 @@ reg('C08', [('verus', 'xoshiro'), ('verus', 'xorshift'), ('kani', 'std_shims'), 
     level='proof', trusted_base=TB_COMMON + TB_RC + TB_KANI,
     explanation='from_seed: zero seed remapped exactly as documented, every other seed verbatim; seed_from_u64 == from_seed of the SplitMix64 expansion; XorShift from_rng/try_from_rng redraw loop; lemma: no seeding path yields the zero state',
     assumptions=['D11 (all-zero test) and rand_core default from_rng are cross-checked by Kani on the real code'])
-reg('C09', [('verus', 'xoshiro'), ('verus', 'xorshift'), ('verus', 'isaac'), ('verus', 'isaac64'), ('verus', 'hc128'),
+reg('C09', [('static', 'forwarding'), ('verus', 'xoshiro'), ('verus', 'xorshift'), ('verus', 'isaac'), ('verus', 'isaac64'), ('verus', 'hc128'),
             ('kani', 'rc_glue'), ('kani', 'seeding'), ('kani', 'hc128_incrate'), ('kani', 'isaac_incrate'), ('kani', 'isaac64_incrate')],
     level='proof', trusted_base=TB_COMMON + TB_RC + TB_KANI,
     explanation='seed_from_u64 == from_seed(documented expansion) (Verus for the xoshiro family and ISAAC; Kani against a PCG32 twin for XorShiftRng and Hc128Rng); from_rng/try_from_rng: exactly one seed worth of bytes, same generator, source error returned unchanged (Kani with recording sources; XorShift redraw loop in Verus)')
-reg('C10', ALL_UNITS, thorough=ALL_UNITS + [('kani', 'hc128_incrate')], fallback=[('kani', 'hc128_incrate')], level='proof', trusted_base=TB_COMMON + TB_RC,
+reg('C10', ALL_UNITS, thorough=ALL_UNITS + [('kani', 'hc128_incrate'), ('diff', 'clone')], fallback=[('diff', 'clone'), ('kani', 'hc128_incrate')], level='proof', trusted_base=TB_COMMON + TB_RC,
     explanation='clone copies every field, == holds iff all state is equal (derived and hand-written impls, incl. Hc128Rng core+index); every operation under contract determines result and final state from the old state (the state clauses), so equal states have identical futures',
     assumptions=['IsaacRng/Isaac64Rng derive Clone over rand_core BlockRng (dependency derive output); they have no PartialEq'])
 reg('C11', [('kani', 'serde_rt'), ('sweep', 'isaac_serde')], thorough=[('kani', 'serde_rt'), ('sweep', 'isaac_serde'), ('kani', 'isaac_incrate'), ('kani', 'isaac64_incrate')], level='proof', trusted_base=TB_KANI + ['serde derive output and bincode are symbolically executed as ordinary code'],
@@ -118,7 +117,7 @@ reg('C11', [('kani', 'serde_rt'), ('sweep', 'isaac_serde')], thorough=[('kani', 
     assumptions=['IsaacRng / Isaac64Rng: BOUNDED stand-in (never counted as proved): native sweep over every snapshot point (all buffer indices, pending half or not) for 3 seeds on the real crates; the core with arbitrary contents through derive output + isaac_array_serde is a Kani harness in the thorough tier (token serde format kani/incrate/tokfmt.rs; bincode and the whole-generator harness exceed CBMC: 14 GB / 50 min)'])
 reg('C17', [('static', 'debug_frame'), ('kani', 'debug'), ('kani', 'hc128_incrate'), ('kani', 'isaac_incrate'), ('kani', 'isaac64_incrate'), ('kani', 'jitter_incrate')], level='proof', trusted_base=TB_KANI,
     explanation='{:?} and {:#?} of an arbitrary state written into a fixed sink equal the expected literal byte for byte (formatting loops are bounded by the literal length)')
-reg('C18', ALL_UNITS + [('static', 'cfg_invariance')], fallback=[('kani', 'api'), ('diff', 'jitter')], level='proof', trusted_base=TB_COMMON + ['optimiser/code generator correctness (T1): no source-level method can do without it'],
+reg('C18', ALL_UNITS + [('static', 'cfg_invariance')], fallback=[('diff', 'jitter'), ('diff', 'stream'), ('diff', 'clone'), ('kani', 'api')], level='proof', trusted_base=TB_COMMON + ['optimiser/code generator correctness (T1): no source-level method can do without it'],
     explanation='(1) no overflow/debug check can fire in any function under contract (Verus built-in obligations), so dev and release execute the same arithmetic; (2) every function has identical expanded text under {debug assertions on, off} x {serde off, on}')
 reg('C19', [('static', 'shared_state_scan'), ('static', 'send_sync')], level='other', trusted_base=['rustc auto-trait checking', 'Rust aliasing rules for &mut self'],
     explanation='frame obligations: every function of the expanded crates mentions no static / interior-mutable / ambient state (JITTER_ROUNDS only in JitterRng::new); Send + Sync for all 23 generator/core types discharged by rustc; interleavings are not explored: with exclusive &mut self and an empty global frame there is nothing for a schedule to influence')
